@@ -149,7 +149,7 @@ def history_events(chk, cx, fsx, reqs, eid0, dask_every=4):
         eager = np.array(out[1].data, copy=True) if out[0] == "ok" else None      # before anything modifies the result
         if out[0] == "ok" and n > 0 and j % 3 == 0:
             evs += mutation_steps(cx, fsx, r, o, n, out, j, eid0 + len(evs))
-        if out[0] == "ok" and j % dask_every == 1:
+        if out[0] == "ok" and j % dask_every == 1 % dask_every:
             # Dask read: lazy (no file opened while the graph is built), equal to the eager read bitwise
             c0 = rl.opens()
             try:
@@ -159,7 +159,8 @@ def history_events(chk, cx, fsx, reqs, eid0, dask_every=4):
                 arr = zd.data.compute(scheduler="threads" if j % 3 else "synchronous")
                 c2 = rl.opens()
                 z2 = _Computed(arr, zd.start_time, zd.sample_rate)
-                fl = {"dask_lazy": bool(lazy), "dask_opened_on_compute": bool(c2 > c1),
+                cx.counts["dask_opened_on_compute"] = cx.counts.get("dask_opened_on_compute", 0) + (c2 > c1)
+                fl = {"dask_lazy": bool(lazy),
                       "dask_eq_eager": bool(np.array_equal(arr, eager) and arr.dtype == eager.dtype),
                       "dask_type": type(zd) is type(out[1])}
                 evs.append(rl.read_event(fsx, o, n, ("ok", z2), eid=eid0 + len(evs), how="dask", flags=fl,
@@ -621,6 +622,7 @@ def _run(chk, rl, tmp, pool):
     chk.notes["forced_schedules"] = {"two_readers_written_files": cx.counts["forced2"], "three_readers_written_files": cx.counts["forced3"],
                                      "sample_files": cx.counts["forced_sample"], "file_sets": sorted(cx.sets_sched)}
     chk.notes["schedules_skipped_after_step_failures"] = cx.counts.get("schedules_skipped_after_step_failures", 0)
+    chk.notes["dask_reads_that_opened_the_file_only_on_compute"] = cx.counts.get("dask_opened_on_compute", 0)
     chk.notes["large_reads_compared_bitwise"] = cx.counts["large"]
     chk.notes["file_sets"] = {k: "%s, %d samples, frames of %d, %d file(s)" % (_key(v), v.outlen, v.spf, v.nfiles) for k, v in
                               list(cx.written.items()) + list(cx.samples.items())}
